@@ -3,10 +3,11 @@
 /repo's working tree or /verif outside work/).
 
 usage: mutant_sweep.py [--mutants /verif/work/mutants] [--only Mvm,Mlib/0012,...] [--workers N] [--shard-workers W]
-                       [--tag NAME] [--check-timeout S] [--baseline [C01,C02,...]] [--all-checks] [--keep]
+                       [--tag NAME] [--check-timeout S] [--baseline [C01,C02,...]] [--all-checks] [--keep] [--rev COMMIT]
+                       [--extra C06,C08]   (checks appended to the relevance list of every selected mutant)
 
 Mechanics (same as sweep_iso.py): a private copy of /verif (without work/, .git, seeded/) and a detached git
-worktree of /repo under /tmp/msweep_<tag>/w<k>/, the copy's three '/repo' references rewritten to the worktree;
+worktree of /repo (at --rev, default HEAD; the recorded campaign: c1399e4) under /tmp/msweep_<tag>/w<k>/, the copy's three '/repo' references rewritten to the worktree;
 per mutant: `git apply patch.diff` in the worktree, `./check <ID>` in the copy with VERIF_SKIP_LEAN=1, undo.
 Differences from sweep_iso.py:
   * the checks to run come from the relevance map below (by mutated file), cheapest likely detector first, and the
@@ -91,7 +92,7 @@ class Worker:
         subprocess.run(['git', '-C', '/repo', 'worktree', 'remove', '--force', self.R], capture_output=True)
         shutil.rmtree(self.dir, ignore_errors=True)
         os.makedirs(self.dir)
-        subprocess.run(['git', '-C', '/repo', 'worktree', 'add', '--detach', self.R, 'HEAD', '-q'], check=True)
+        subprocess.run(['git', '-C', '/repo', 'worktree', 'add', '--detach', self.R, opt.get('rev', 'HEAD'), '-q'], check=True)
         shutil.copyfile('/repo/Cargo.lock', self.R + '/Cargo.lock')
         subprocess.run(['rsync', '-a', GOLD + '/', self.V + '/'], check=True)
         rewrite(self.V, self.R)
@@ -158,7 +159,7 @@ def main():
         key = pid + '/' + var
         if ONLY and key not in ONLY and pid not in ONLY:
             continue
-        todo.append((key, patch, RELEVANT[pid[1:]]))
+        todo.append((key, patch, RELEVANT[pid[1:]] + [c for c in opt.get('extra', '').split(',') if c and c not in RELEVANT[pid[1:]]]))
     res = json.load(open(OUT)) if os.path.exists(OUT) else {}
     todo = [t for t in todo if t[0] not in res]
     nw = max(1, min(N, len(todo))) if 'baseline' not in opt else N
